@@ -460,7 +460,31 @@ class Model:
         pass
 
     def yield_from(self, it, v, node):
-        raise Unsupported("yield from")
+        """`yield from coll` == `for x in coll: yield x` (foreach rule: an arbitrary element is yielded on one path, the
+        other path continues after the statement; under interference the heap is havocked as after any yield)"""
+        from .core import PathEnd
+        from .interp import _conj
+        p = it.path
+        conc = it.concrete_items(v)
+        if conc is not None:
+            for x in conc:
+                it.on_yield(it, x, node)
+            return
+        itd = it.iter_descr(v, node)
+        if p.choose(z3.Bool(p.fresh_name("iter"))):
+            x = z3.Const(p.fresh_name("x"), itd.elem_ty.sort())
+            mx = itd.member(x)
+            p.assume(mx)
+            for cj in _conj(mx):
+                p.pc_tags[z3.simplify(cj).get_id()] = "member"
+                p.pc_tags[cj.get_id()] = "member"
+            if it.interference is not None:
+                it.interference.after_yield(it, it.callctx, node)     # earlier elements were yielded already
+            p.ghost["__loopvars__"] = p.ghost.get("__loopvars__", []) + [(x, itd)]
+            it.on_yield(it, itd.elem(it, x), node)
+            raise PathEnd("yield-from-iteration")
+        if it.interference is not None:
+            it.interference.after_yield(it, it.callctx, node)
 
     def symbolic_comprehension(self, it, e, g, itd, env, kind):
         """[f(x) for x in S if c(x)] over a symbolic collection -> Snapshot with
